@@ -744,6 +744,14 @@ class C03:
         call = calls[0].term
         kws = callkw(call)
         MAP = ("global", f"{GEO}:GEOMETRY_MAPPING", "assign")
+        # options of the validating call that change WHAT is accepted (pydantic: strict refuses tuples / numeric strings that the
+        # constructor coerces; a context can switch validators): the three modes must accept exactly what the constructor accepts
+        for k_, v_ in sorted(kws.items()):
+            if k_ in ("strict", "context") and v_ != NONE:
+                ctx.bad("R03.4", FILE, "geometry_validate", f"model_validate(..., {k_}={show(v_)[:30]})",
+                        f"geometry_validate passes {k_}={show(v_)[:30]} to model_validate: the accepted set of the dict / attributes / json "
+                        f"entry points is no longer that of the constructor (strict mode rejects tuples and numeric strings the "
+                        f"constructor coerces)", calls[0].lineno)
         for mval in ("json", "dict", "attributes"):
             env = {mode: mval}
             fa = peval(kws.get("from_attributes", ("const", False)), env)
